@@ -46,6 +46,8 @@ structure Obj where
   cls : Cls := .TokenList
   /-- leaf value, or the cached `value` of a group -/
   value : Text := []
+  /-- the token type of a leaf (`Token.ttype`; `None` for groups, modelled as `[]`) -/
+  ttype : TType := []
 deriving Inhabited
 
 structure Heap where
@@ -106,6 +108,15 @@ def groupTokens (str : Heap → Nat → Text) (h : Heap) (self : Nat) (cls : Cls
         let h5 := h4.setParent g self                                       -- grp.parent = self
         .ok (h5.setParents sub g, g)                                        -- for token in subtokens: token.parent = grp
 
+/-- `tlist[idx].ttype = tt` (what `group_operator`'s post step does); returns the new heap and the id of the object written -/
+def Heap.setTType (h : Heap) (self idx : Nat) (tt : TType) : Except PyErr (Heap × Nat) :=
+  match (h.obj self).kids with
+  | none => .error .typeError
+  | some ks =>
+    match ks[idx]? with
+    | none => .error .indexError
+    | some x => .ok (h.setObj x { h.obj x with ttype := tt }, x)
+
 /-- `sql.Statement(tokens)` over freshly created leaf tokens (statement_splitter.py): leaves `0 … n-1`, the statement is object `n` -/
 def mkStatement (vals : List Text) : Heap :=
   let n := vals.length
@@ -131,5 +142,28 @@ def runOps (str : Heap → Nat → Text) (h : Heap) : List Op → Heap × List (
     match groupTokens str h op.self op.cls op.start op.stop op.includeEnd op.extend with
     | .error e => let r := runOps str h rest; (r.1, .error e :: r.2)
     | .ok (h', g) => let r := runOps str h' rest; (r.1, .ok g :: r.2)
+
+/-- a heap operation: a `group_tokens` call or a `ttype` assignment -/
+inductive HOp where
+  | group (op : Op)
+  | setType (self idx : Nat) (tt : TType)
+
+def HOp.run (str : Heap → Nat → Text) (h : Heap) : HOp → Except PyErr (Heap × Nat)
+  | .group op => groupTokens str h op.self op.cls op.start op.stop op.includeEnd op.extend
+  | .setType self idx tt => h.setTType self idx tt
+
+/-- run a script of heap operations; an operation that raises leaves the heap as it was -/
+def runHOps (str : Heap → Nat → Text) (h : Heap) : List HOp → Heap × List (Except PyErr Nat)
+  | [] => (h, [])
+  | op :: rest =>
+    match op.run str h with
+    | .error e => let r := runHOps str h rest; (r.1, .error e :: r.2)
+    | .ok (h', g) => let r := runHOps str h' rest; (r.1, .ok g :: r.2)
+
+/-- give the objects token types -/
+def Heap.withTypes (h : Heap) (f : Nat → TType) : Heap := { h with obj := fun j => { h.obj j with ttype := f j } }
+
+/-- `sql.Statement(tokens)` over freshly created leaf tokens, with their token types -/
+def mkStatementT (toks : List Tok) : Heap := (mkStatement (toks.map (·.val))).withTypes (fun j => (toks.getD j default).tt)
 
 end Sql.BK
